@@ -132,6 +132,11 @@ func LogEdge(b, m, i int) *big.Float {
 	}
 	if i%m == 0 && i >= 0 {
 		e = PowInt(NI(int64(b)), i/m)
+	} else if i > 400 {
+		// wide histograms (thousands of edges): b^(i/m) = b^(i div m) *
+		// b^((i mod m)/m), one cached root times an integer power, instead of
+		// one Exp/Log per edge
+		e = Mul(PowInt(NI(int64(b)), i/m), LogEdge(b, m, i%m))
 	} else {
 		e = Pow(NI(int64(b)), Quo(NI(int64(i)), NI(int64(m))))
 	}
@@ -396,6 +401,16 @@ func HistSelfTest() error {
 					return fmt.Errorf("LogEdge(%d,%d,%d)=%v, math.Pow %v", b, m, i, e, want)
 				}
 			}
+		}
+	}
+	// edges of wide histograms (split into integer power and root): against
+	// the direct Exp/Log evaluation and math.Pow
+	for _, t := range [][3]int{{2, 4, 401}, {2, 4, 4095}, {10, 3, 922}, {7, 2, 725}, {3, 4, 2581}} {
+		e := LogEdge(t[0], t[1], t[2])
+		d := Pow(NI(int64(t[0])), Quo(NI(int64(t[2])), NI(int64(t[1]))))
+		want := math.Pow(float64(t[0]), float64(t[2])/float64(t[1]))
+		if rel := F64(Quo(Sub(e, d), d)); math.Abs(rel) > 1e-90 || math.Abs(F64(e)-want) > 1e-12*want {
+			return fmt.Errorf("LogEdge(%d,%d,%d)=%v: direct evaluation differs by %v relative, math.Pow %v", t[0], t[1], t[2], F64(e), rel, want)
 		}
 	}
 	// sqrt(2) as 2^(1/2)
